@@ -52,7 +52,9 @@ type vhlcCase struct {
 	ID      string   `json:"id"`
 	Auth    bool     `json:"auth"`
 	Disable bool     `json:"disable"`
-	Ops     []vhlcOp `json:"ops"`
+	// Tenant: the upstream port is multi-tenant (the only verifier is tenant "t1"'s); every client names that tenant
+	Tenant bool     `json:"tenant"`
+	Ops    []vhlcOp `json:"ops"`
 }
 
 type vhlcInput struct {
@@ -130,10 +132,17 @@ func vhlcNewRig(c vhlcCase) (*vhlcRig, error) {
 	mgr := NewLoadBalancedManager(st, nil)
 	var verifier *auth.MultiTenantVerifier
 	if c.Auth {
-		verifier = auth.NewMultiTenantVerifier(auth.NewJWTVerifier(&auth.LoadedConfig{
+		jv := auth.NewJWTVerifier(&auth.LoadedConfig{
 			HMACSecretKey:             []byte(vhlcSecret),
 			DisableDisconnectOnExpiry: c.Disable,
-		}), nil)
+		})
+		if c.Tenant {
+			verifier = auth.NewMultiTenantVerifier(
+				auth.NewJWTVerifier(&auth.LoadedConfig{HMACSecretKey: []byte("another-secret-for-the-default")}),
+				map[string]auth.Verifier{"t1": jv})
+		} else {
+			verifier = auth.NewMultiTenantVerifier(jv, nil)
+		}
 	}
 	srv := NewServer(mgr, verifier, nil, st, config.UpstreamConfig{}, log.NewNopLogger())
 	ln, err := net.Listen("tcp", "127.0.0.1:0")
@@ -434,6 +443,9 @@ func (r *vhlcRig) connect(op vhlcOp, ob *vhlcObs) {
 		if tok != "" {
 			hdr.Set("Authorization", "Bearer "+tok)
 		}
+		if r.c.Tenant {
+			hdr.Set("x-piko-tenant-id", "t1")
+		}
 		d := &websocket.Dialer{HandshakeTimeout: 3 * time.Second}
 		ws, resp, err := d.DialContext(ctx, "ws://"+r.addr+"/piko/v1/upstream/"+op.E, hdr)
 		if err != nil {
@@ -457,7 +469,11 @@ func (r *vhlcRig) connect(op vhlcOp, ob *vhlcObs) {
 		c.rawWs = ws
 		c.rawSess = sess
 	} else {
-		up := &pikoclient.Upstream{URL: &url.URL{Scheme: "http", Host: r.addr}, Token: tok,
+		tenant := ""
+		if r.c.Tenant {
+			tenant = "t1"
+		}
+		up := &pikoclient.Upstream{URL: &url.URL{Scheme: "http", Host: r.addr}, Token: tok, TenantID: tenant,
 			MinReconnectBackoff: 20 * time.Millisecond, MaxReconnectBackoff: 100 * time.Millisecond}
 		ln, err := up.Listen(ctx, op.E)
 		if err != nil {
